@@ -166,7 +166,7 @@ theorem shapeL_sound {e : EOps α} {φ : α → R} (L : Lawful e.toROps φ) (N :
   | [] => fun _ => shapeSpec_nil N
   | a :: rest => by
     intro h
-    rw [shapeL] at h
+    unfold shapeL at h
     split at h
     · rename_i hz
       have hz' := (isZero_iff L a).1 hz
